@@ -536,7 +536,7 @@ func makeGenbankOriginParser(length int) genbankSubparser {
 				return pars.NewError("sequence is longer than the length declared in LOCUS", state.Position())
 			}
 
-			gb.Origin = &Origin{p, false}
+			gb.Origin = &Origin{p, false, nil}
 			return nil
 		}
 	}
